@@ -1,8 +1,13 @@
 package sym
 
 import (
+	"crypto/md5"
+	"crypto/sha1"
+	"crypto/sha256"
+	"crypto/sha512"
 	"fmt"
 	"go/types"
+	"hash/crc32"
 
 	"gosmt/smt"
 
@@ -25,6 +30,7 @@ type hashSum struct {
 	alg    string
 	stream []*smt.Term
 	out    []*smt.Term
+	real   bool // computed from a constant stream, not modelled
 }
 
 type hashAlg struct {
@@ -87,12 +93,35 @@ func (in *Interp) hashSum(alg string, size int, stream []*smt.Term) []*smt.Term 
 			allConst = false
 		}
 	}
-	_ = allConst
-	for i := range out {
-		out[i] = in.fresh("H."+alg, 8)
+	tag := "H." + alg
+	if allConst && in.eng.ReplayModel != nil {
+		// concrete re-execution: every stream is constant now; this digest was
+		// modelled in the symbolic run exactly if the model names its output
+		name := fmt.Sprintf("%s!%d", sanitize(tag), in.symCount[tag])
+		if _, modelled := in.eng.ReplayModel[name]; modelled {
+			allConst = false
+		}
+	}
+	if allConst {
+		// a constant stream has its real digest; the output symbols it would
+		// have used are skipped so that numbering stays aligned with replay
+		raw := make([]byte, len(stream))
+		for i, b := range stream {
+			raw[i] = byte(b.Val)
+		}
+		sum := realDigest(alg, raw)
+		for i := range out {
+			out[i] = c.BV(uint64(sum[i]), 8)
+		}
+		in.symCount[tag] += size
+	} else {
+		for i := range out {
+			out[i] = in.fresh(tag, 8)
+		}
 	}
 	for _, s := range in.sums {
-		if s.alg != alg {
+		if s.alg != alg || (allConst && s.real) {
+			// two real digests need no axiom
 			continue
 		}
 		var outEq []*smt.Term
@@ -109,7 +138,7 @@ func (in *Interp) hashSum(alg string, size int, stream []*smt.Term) []*smt.Term 
 		}
 		in.assume(c.Eq(c.And(inEq...), c.And(outEq...)))
 	}
-	in.sums = append(in.sums, &hashSum{alg: alg, stream: append([]*smt.Term(nil), stream...), out: out})
+	in.sums = append(in.sums, &hashSum{alg: alg, stream: append([]*smt.Term(nil), stream...), out: out, real: allConst})
 	in.res.Events = append(in.res.Events, fmt.Sprintf("hash:%s len=%d", alg, len(stream)))
 	return out
 }
@@ -204,4 +233,32 @@ func registerHash(e *Engine) {
 		eq := in.strEq(in.mkStr(in.sliceBytes(a[0].(SliceV))), in.mkStr(in.sliceBytes(a[1].(SliceV))))
 		return c.Ite(eq, c.BV(1, 64), c.BV(0, 64))
 	}
+}
+
+// realDigest computes the actual digest of a constant byte stream.
+func realDigest(alg string, b []byte) []byte {
+	switch alg {
+	case "sha1":
+		s := sha1.Sum(b)
+		return s[:]
+	case "sha256":
+		s := sha256.Sum256(b)
+		return s[:]
+	case "sha224":
+		s := sha256.Sum224(b)
+		return s[:]
+	case "sha512":
+		s := sha512.Sum512(b)
+		return s[:]
+	case "sha384":
+		s := sha512.Sum384(b)
+		return s[:]
+	case "md5":
+		s := md5.Sum(b)
+		return s[:]
+	case "crc32":
+		v := crc32.ChecksumIEEE(b)
+		return []byte{byte(v >> 24), byte(v >> 16), byte(v >> 8), byte(v)}
+	}
+	panic(unsupported{"digest algorithm " + alg})
 }
